@@ -62,15 +62,28 @@ Proof. exact session_close_can_block. Qed.
 Print Assumptions C15_session_close_blocks_refuted.
 
 Theorem C15_underlay_close_releases : (forall s, run (init true true) stall_trace = Some s ->
-  exists s', run s [ACallUnderlayClose; TO; TO; TO; TC1; TC1; TC1; TO; TI; TU; TU; TU] = Some s'
+  exists s', run s [ACallUnderlayClose; TO; TO; TO; TC1; TC1; TC1; TO; TI; TU; TU; TU; TU] = Some s'
     /\ closedChan s' = true /\ pC1 s' = CRet /\ pO s' = LExited /\ pI s' = LExited /\ pU s' = URet /\ udone s' = true /\ nclosed s' = 1)%nat.
 Proof. exact underlay_close_releases. Qed.
 Print Assumptions C15_underlay_close_releases.
 
-Theorem C15_event_loop_rearms : (exists s, run (init true true) [TE; ACallUnderlayClose; TE; TE; TU; TU] = Some s
-    /\ pE s = ERead /\ connDL s = true /\ closeRequested s = true)%nat.
-Proof. exact event_loop_can_rearm. Qed.
-Print Assumptions C15_event_loop_rearms.
+Theorem C15_underlay_close_releases_event_loop : ((forall s s', invK s -> fixedLoop s = true -> pU s = USecondDL -> step TU s = Some s' -> released s')
+  /\ (forall l s s', released s -> step l s = Some s' -> released s')
+  /\ (forall s, released s -> pE s <> EExited -> exists s', step TE s = Some s' /\ mEv s' < mEv s)
+  /\ (forall l s s', released s -> step l s = Some s' -> l <> TE -> mEv s' <= mEv s)
+  /\ (forall s, mEv s <= 6) /\ (forall s, mEv s = 0 -> pE s = EExited)
+  /\ (forall c a ls s, run (init c a) ls = Some s -> invK s /\ fixedLoop s = true))%nat.
+Proof. exact underlay_close_releases_event_loop_all. Qed.
+Print Assumptions C15_underlay_close_releases_event_loop.
+
+Theorem C15_event_loop_rearms_refuted_before_fix : (exists s, run (init_vv false false true true) rearm_trace = Some s
+    /\ pU s = URet /\ udone s = true /\ pE s = ERead /\ readDL s = false /\ step TE s = None)%nat.
+Proof. exact event_loop_rearm_before_fix. Qed.
+Print Assumptions C15_event_loop_rearms_refuted_before_fix.
+
+Theorem C15_event_loop_rearm_schedule_on_fixed_code : (exists s, run (init true true) (rearm_trace ++ [TU; TE; TE]) = Some s /\ pU s = URet /\ pE s = EExited)%nat.
+Proof. exact event_loop_rearm_trace_fixed. Qed.
+Print Assumptions C15_event_loop_rearm_schedule_on_fixed_code.
 
 Theorem C15_output_error_close_no_self_deadlock : (forall s,
   inv s -> keepLock s = false -> (connDL s = true \/ netBroken s = true) ->
@@ -92,7 +105,7 @@ Theorem C15_output_error_close_keep_lock_refuted : (exists s, run (init_v true t
 Proof. exact output_error_close_keep_lock_deadlocks. Qed.
 Print Assumptions C15_output_error_close_keep_lock_refuted.
 
-Theorem C15_output_error_close_code_completes : (exists s, run (init true true) (self_deadlock_trace ++ [TO; TO; TO; TO; TO; TI; TR; TU]) = Some s
+Theorem C15_output_error_close_code_completes : (exists s, run (init true true) (self_deadlock_trace ++ [TO; TO; TO; TO; TO; TI; TR; TU; TU]) = Some s
     /\ closedChan s = true /\ nclosed s = 1 /\ pO s = LExited /\ pI s = LExited /\ pR s = RRet EOF /\ pU s = URet /\ udone s = true)%nat.
 Proof. exact output_error_close_code_completes. Qed.
 Print Assumptions C15_output_error_close_code_completes.
